@@ -586,7 +586,117 @@ theorem firstErrAll_append (a b : List Plugin) : firstErrAll (a ++ b) = (firstEr
     simp only [List.cons_append, firstErrAll, ih]
     cases firstErr p <;> simp
 
+/-! ### params / cookies written by plug-ins -/
+
+theorem locQuery_ne_locHeader : locQuery ≠ locHeader := by decide
+theorem locCookie_ne_locHeader : locCookie ≠ locHeader := by decide
+theorem locCookie_ne_locQuery : locCookie ≠ locQuery := by decide
+
+@[simp] theorem writeInto_nil (b : Option Dict) : writeInto b [] = b := rfl
+
+theorem writeInto_single (b : Option Dict) (k v : Str) : writeInto b [(k, v)] = some (dictSet (b.getD []) k v) := rfl
+
+theorem writeInto_append (b : Option Dict) (ws1 ws2 : Dict) :
+    writeInto (writeInto b ws1) ws2 = writeInto b (ws1 ++ ws2) := by
+  cases ws1 with
+  | nil => simp
+  | cons w1 ws1 =>
+    cases ws2 with
+    | nil => simp
+    | cons w2 ws2 =>
+      simp only [writeInto, List.isEmpty_cons, List.cons_append, Bool.false_eq_true, if_false, Option.getD_some]
+      rw [← List.cons_append, dictUpdate_append]
+
+@[simp] theorem contribQ_composite (ps : List Plugin) : contribQ (.composite ps) = contribQAll ps := by
+  simp [contribQ]
+
+@[simp] theorem contribC_composite (ps : List Plugin) : contribC (.composite ps) = contribCAll ps := by
+  simp [contribC]
+
+theorem contribQAll_append (a b : List Plugin) : contribQAll (a ++ b) = contribQAll a ++ contribQAll b := by
+  induction a with
+  | nil => simp [contribQAll]
+  | cons p a ih => simp [contribQAll, ih]
+
+theorem contribCAll_append (a b : List Plugin) : contribCAll (a ++ b) = contribCAll a ++ contribCAll b := by
+  induction a with
+  | nil => simp [contribCAll]
+  | cons p a ih => simp [contribCAll, ih]
+
+mutual
+/-- Every plug-in that returns acts on `params` and `cookies` as the sequences of writes `contribQ p`, `contribC p`. -/
+theorem authenticate_params : ∀ (p : Plugin) (a r : RequestArgs), authenticate p a = .ok r →
+    r.params = writeInto a.params (contribQ p) ∧ r.cookies = writeInto a.cookies (contribC p)
+  | .bearer tok, a, r, hr => by
+    simp only [authenticate, Except.ok.injEq] at hr
+    subst hr; simp [RequestArgs.setHeader, contribQ, contribC]
+  | .headers hs, a, r, hr => by
+    simp only [authenticate, Except.ok.injEq] at hr
+    subst hr; simp [contribQ, contribC]
+  | .apiKey key loc name, a, r, hr => by
+    simp only [authenticate] at hr
+    by_cases h1 : loc = locHeader
+    · subst h1
+      simp only [if_true, Except.ok.injEq] at hr
+      subst hr
+      simp [RequestArgs.setHeader, contribQ, contribC, locQuery_ne_locHeader.symm, locCookie_ne_locHeader.symm]
+    · by_cases h2 : loc = locQuery
+      · rw [if_neg h1, if_pos h2] at hr
+        simp only [Except.ok.injEq] at hr
+        subst hr h2
+        simp [contribQ, contribC, writeInto_single, locCookie_ne_locQuery.symm]
+      · by_cases h3 : loc = locCookie
+        · rw [if_neg h1, if_neg h2, if_pos h3] at hr
+          simp only [Except.ok.injEq] at hr
+          subst hr h3
+          simp [contribQ, contribC, writeInto_single, locCookie_ne_locQuery]
+        · simp [h1, h2, h3] at hr
+  | .oauth2 tok cb, a, r, hr => by
+    simp only [authenticate, Except.ok.injEq] at hr
+    subst hr; simp [RequestArgs.setHeader, contribQ, contribC]
+  | .composite ps, a, r, hr => by
+    rw [authenticate_composite] at hr
+    simpa using authenticateAll_params ps a r hr
+theorem authenticateAll_params : ∀ (ps : List Plugin) (a r : RequestArgs), authenticateAll ps a = .ok r →
+    r.params = writeInto a.params (contribQAll ps) ∧ r.cookies = writeInto a.cookies (contribCAll ps)
+  | [], a, r, hr => by
+    simp only [authenticateAll, Except.ok.injEq] at hr
+    subst hr; simp [contribQAll, contribCAll]
+  | p :: ps, a, r, hr => by
+    simp only [authenticateAll] at hr
+    cases h1 : authenticate p a with
+    | error e => simp [h1] at hr
+    | ok a' =>
+      simp only [h1] at hr
+      have h2 := authenticate_params p a a' h1
+      have h3 := authenticateAll_params ps a' r hr
+      rw [contribQAll, contribCAll, ← writeInto_append, ← writeInto_append, ← h2.1, ← h2.2]
+      exact h3
+end
+
+/-- `if key in authenticated_args: kwargs[key] = authenticated_args[key]` after the writes `ws`. -/
+theorem takeBack_writeInto (base : Option Dict) (ws : Dict) :
+    (match writeInto base ws with
+      | some q => some q
+      | none => base) = writeInto base ws := by
+  cases h : writeInto base ws with
+  | some q => rfl
+  | none =>
+    cases ws with
+    | nil => simpa using h
+    | cons w ws => simp [writeInto] at h
+
+/-- Exact-key reading of a `params` / `cookies` argument after the plug-in writes: last writer, else the caller's. -/
+theorem dictGet_writeInto (base : Option Dict) (ws : Dict) (k : Str) :
+    (writeInto base ws).bind (fun d => dictGet d k) = (lastWrite ws k).or (base.bind (fun d => dictGet d k)) := by
+  cases ws with
+  | nil => simp [lastWrite]
+  | cons w ws =>
+    simp only [writeInto, List.isEmpty_cons, Bool.false_eq_true, if_false, Option.bind_some, dictGet_dictUpdate]
+    cases base <;> simp [dictGet]
+
 /-! ### the transport -/
+
 
 /-- The headers before the auth step: defaults, then per-request headers. -/
 theorem baseHeaders_eq (defaults reqHeaders : Option Dict) :
@@ -595,29 +705,68 @@ theorem baseHeaders_eq (defaults reqHeaders : Option Dict) :
   rcases defaults with _ | _ | ⟨kv, d⟩ <;> rcases reqHeaders with _ | r <;> simp [baseHeaders]
 
 /-- MASTER CHARACTERISATION of `_prepare_headers`: it raises exactly the plug-in's exception, and
-    otherwise the result is the empty dict updated with all writes in order
-    (defaults, per-request headers, plug-in contributions / bearer token). -/
-theorem prepareHeaders_spec (defaults reqHeaders : Option Dict) (auth : Option Plugin) (bearer : Option Str) :
-    prepareHeaders defaults reqHeaders auth bearer =
+    otherwise the returned headers are the empty dict merged with all writes in order
+    (defaults, per-request headers, plug-in contributions / bearer token), and the `params` / `cookies`
+    it leaves in `kwargs` are the caller's with the plug-ins' query / cookie writes applied. -/
+theorem prepareRequest_spec (defaults reqHeaders params cookies : Option Dict) (auth : Option Plugin)
+    (bearer : Option Str) :
+    prepareRequest defaults reqHeaders params cookies auth bearer =
       match auth.bind firstErr with
       | some e => .error e
-      | none => .ok (dictUpdateCI [] (allWrites defaults reqHeaders auth bearer)) := by
-  unfold prepareHeaders
+      | none => .ok { headers := dictUpdateCI [] (allWrites defaults reqHeaders auth bearer),
+                      params := writeInto params (queryWrites auth),
+                      cookies := writeInto cookies (cookieWrites auth) } := by
+  unfold prepareRequest
   simp only [baseHeaders_eq]
   cases auth with
   | none =>
     cases bearer with
-    | none => simp [allWrites, authWrites]
-    | some t => simp [allWrites, authWrites, dictUpdateCI_append, dictUpdateCI_single]
+    | none => simp [allWrites, authWrites, queryWrites, cookieWrites]
+    | some t => simp [allWrites, authWrites, queryWrites, cookieWrites, dictUpdateCI_append, dictUpdateCI_single]
   | some p =>
     simp only [Option.bind_some]
     cases hf : firstErr p with
     | some e => simp [authenticate_of_firstErr_some p _ e hf]
     | none =>
       obtain ⟨r, hr⟩ := authenticate_of_firstErr_none p
-        { headers := some (dictUpdateCI [] (defaults.getD [] ++ reqHeaders.getD [])) } hf
-      have := authenticate_headers p _ r _ rfl hr
-      simp only [allWrites, authWrites, dictUpdateCI_append] at hr this ⊢
-      simp [hr, this]
+        { headers := some (dictUpdateCI [] (defaults.getD [] ++ reqHeaders.getD [])),
+          params := params, cookies := cookies } hf
+      have hh := authenticate_headers p _ r _ rfl hr
+      have hp := authenticate_params p _ r hr
+      simp only [allWrites, authWrites, queryWrites, cookieWrites, dictUpdateCI_append] at hr hh hp ⊢
+      simp only [hr, hh, hp.1, hp.2, Except.ok.injEq, Prepared.mk.injEq, true_and]
+      exact ⟨takeBack_writeInto _ _, takeBack_writeInto _ _⟩
+
+/-- The headers `_prepare_headers` returns do not depend on the caller's params / cookies. -/
+theorem prepareRequest_headers (defaults reqHeaders params cookies : Option Dict) (auth : Option Plugin)
+    (bearer : Option Str) :
+    (match prepareRequest defaults reqHeaders params cookies auth bearer with
+      | .ok r => .ok r.headers
+      | .error e => .error e) = prepareHeaders defaults reqHeaders auth bearer := by
+  unfold prepareHeaders
+  rw [prepareRequest_spec, prepareRequest_spec]
+  cases auth.bind firstErr <;> rfl
+
+theorem prepareHeaders_spec (defaults reqHeaders : Option Dict) (auth : Option Plugin) (bearer : Option Str) :
+    prepareHeaders defaults reqHeaders auth bearer =
+      match auth.bind firstErr with
+      | some e => .error e
+      | none => .ok (dictUpdateCI [] (allWrites defaults reqHeaders auth bearer)) := by
+  unfold prepareHeaders
+  rw [prepareRequest_spec]
+  cases auth.bind firstErr <;> rfl
+
+/-- MASTER CHARACTERISATION of `request` up to the call of httpx. -/
+theorem sendArgs_spec {β : Type} (t : Transport) (c : CallerArgs β) :
+    sendArgs t c =
+      match t.auth.bind firstErr with
+      | some e => .error e
+      | none => .ok { headers := dictUpdateCI [] (allWrites t.defaultHeaders c.headers t.auth t.bearerToken),
+                      params := writeInto c.params (queryWrites t.auth),
+                      cookies := writeInto c.cookies (cookieWrites t.auth),
+                      other := c.other } := by
+  unfold sendArgs
+  rw [prepareRequest_spec]
+  cases t.auth.bind firstErr <;> rfl
 
 end Pog
